@@ -437,3 +437,41 @@ Proof.
 Qed.
 
 End Total.
+
+(* ================================================================== the tied step function
+   (Model/MeshOps.v step1, run against the implementation on every check): tokens are carried as
+   the numbers they parse to, fmt = fmt_tbl tbl is the table "value -> value of its printed
+   token" measured on the implementation, parse = Ok.  The step returns the rounded mesh. *)
+From OV Require Import Model.MeshOps.
+
+Section Tied.
+Context {A : Arith}.
+Variable K : @mconst A.
+Notation mesh1 := (mesh1 A A).
+
+Lemma tied_reread_rounded (m : mesh1) tbl :
+  wf1 m ->
+  step1 K m (O1Reread tbl) =
+  Ok (map_mesh1 (fmt_tbl tbl) m,
+      VLinesM1 (layout1 A (fmt_tbl tbl) m) (map_mesh1 (fmt_tbl tbl) m)).
+Proof.
+  intros Hwf. pose proof Hwf as [_ Hall]. cbn [step1].
+  rewrite output1_layout by exact Hwf. cbn [bind].
+  rewrite (read_layout_roundtrip_on A (fmt_tbl tbl) (fun t => Ok t) (fmt_tbl tbl) m m);
+    [reflexivity | reflexivity | exact Hwf | reflexivity | exact Hall].
+Qed.
+
+Lemma tied_file_rounded (m : mesh1) tbl nodes2 :
+  wf1 m ->
+  step1 K m (O1File tbl (m1_nvars m) nodes2) =
+  Ok (m, VLinesM1 (layout1 A (fmt_tbl tbl) m) (map_mesh1 (fmt_tbl tbl) m)).
+Proof.
+  intros Hwf. cbn [step1].
+  rewrite output1_layout by exact Hwf. cbn [bind].
+  rewrite (read_layout_roundtrip_on A (fmt_tbl tbl) (fun t => Ok t) (fmt_tbl tbl) m
+             (mesh1_new nodes2 (m1_nvars m)));
+    [reflexivity | reflexivity | exact Hwf | reflexivity |].
+  destruct (mesh1_new_wf (A:=A) nodes2 (m1_nvars m)) as [_ H]. exact H.
+Qed.
+
+End Tied.
